@@ -254,11 +254,12 @@ class SigmaBase64OffsetModifier(SigmaValueModifier[SigmaString, SigmaExpansion])
                 "Base64 encoding of strings with wildcards is not allowed",
                 source=self.source,
             )
+        val_bytes = bytes(val)
         return SigmaExpansion(
             [
                 SigmaString(
-                    b64encode(i * b" " + bytes(val))[
-                        self.start_offsets[i] : self.end_offsets[(len(val) + i) % 3]
+                    b64encode(i * b" " + val_bytes)[
+                        self.start_offsets[i] : self.end_offsets[(len(val_bytes) + i) % 3]
                     ].decode()
                 )
                 for i in range(3)
